@@ -96,8 +96,13 @@ func wiringObligations(eng *Engine, key string) []*Obligation {
 			if len(args) < 2 {
 				continue
 			}
-			path := tb.term(args[0])
-			got[strings.Trim(path, `"`)] = tb.term(args[1])
+			path := strings.Trim(tb.term(args[0]), `"`)
+			if prev, dup := got[path]; dup {
+				// the same path registered again (an earlier registration shadows a later one in gorilla/mux)
+				got[path] = prev + " | " + tb.term(args[1])
+			} else {
+				got[path] = tb.term(args[1])
+			}
 		}
 	}
 	var paths []string
